@@ -226,6 +226,24 @@ func c03Build(v map[string]interface{}, variant int, rng *rand.Rand) interface{}
 			return nil
 		}
 		switch int(v["ty"].(float64)) {
+		case 11:
+			// a map that contains itself, and a list holding that map
+			inner, _ := get("M").(map[int]string)
+			ks := make([]int, 0, len(inner))
+			for k := range inner {
+				ks = append(ks, k)
+			}
+			sort.Ints(ks)
+			m := make(map[string]interface{}, c03Cap(len(ks), variant))
+			self := len(ks) / 2
+			for n, i := range c03Order(len(ks), variant, rng) {
+				if n == self {
+					m["self"] = m
+				}
+				m[fmt.Sprintf("k%d", ks[i])] = inner[ks[i]]
+			}
+			m["self"] = m
+			return map[string]interface{}{"map": m, "list": []interface{}{1, m, "x"}}
 		case 9, 10:
 			// a map keyed by structs (9) or by interface values of several kinds (10), from the int-keyed map in field M
 			inner, _ := get("M").(map[int]string)
